@@ -47,8 +47,50 @@ def argv_stream(chk):
     chk.stats["argv_stream"] = st
 
 
+def retry_budget_stream(chk):
+    """retry RUNS (NewExecutionGraphForRetry + Schedule on recorded vectors, as in C10): a re-executed step gets its full
+    retry budget and its recorded retry count equals the extra attempts made in that run"""
+    import p_c10
+    binp, out = common.build_harness("sched")
+    if not binp:
+        return
+    rng = chk.rng
+    first = []
+    for k in range(60 if chk.tier == "quick" else 600):
+        c = sched.gen_case(rng, 700000 + k, 6); c["dry"] = False
+        for nd in c["nodes"]:
+            if nd["limit"] == 0 and rng.random() < 0.5:
+                nd["limit"] = rng.randint(1, 2); nd["fails"] = rng.choice([-1, nd["limit"] + 1, 1])
+        first.append(c)
+    res1 = sched.run_harness(binp, first)
+    cases = []
+    for k, c in enumerate(first):
+        r = res1.get(c["id"])
+        if r and not r.get("crash"):
+            rc = p_c10.retry_case(rng, c, r, 700000 + k)
+            if rc:
+                rc["stopAfter"] = -1
+                for nd, orig in zip(rc["nodes"], c["nodes"]):
+                    if orig["limit"] > 0:
+                        nd["fails"] = rng.choice([1, orig["limit"], orig["limit"] + 1, -1])
+                cases.append(rc)
+    res = sched.run_harness(binp, cases)
+    n = 0
+    for c in cases:
+        r = res.get(c["id"])
+        if not r or r.get("crash"):
+            continue
+        n += 1; chk.evaluations += 1
+        for m in r.get("monitor") or []:
+            if m.startswith("C10:reexecuted-step-"):
+                chk.violation("C03:retry-run:" + m.split(":")[1], m, {"case": dict(c, ops=r["ops"]), "verdict": m, "st0": r.get("st0"), "rc0": r.get("rc0")})
+    chk.stats["retry_runs"] = n
+
+
 def run(chk, replay):
     if replay and "argv_case" in json.load(open(replay)).get("case", {}):
         argv_stream(chk); return
     sched.run_property(chk, PROP, replay)
     argv_stream(chk)
+    if not replay or "init" in json.dumps(json.load(open(replay)).get("case", {}))[:100000]:
+        retry_budget_stream(chk)
